@@ -8,6 +8,7 @@ import (
 	"sort"
 	"strings"
 	"sync"
+	"time"
 
 	"golang.org/x/tools/go/ssa"
 )
@@ -68,6 +69,7 @@ type JobOpts struct {
 	LoopFuel  int  `json:"loop_fuel,omitempty"`
 	AllPerms  bool `json:"all_perms,omitempty"`
 	NoSummary bool `json:"no_summary,omitempty"`
+	QueryTimeoutS int `json:"query_timeout_s,omitempty"`
 }
 
 func (j *Job) inconclusive(msg string) {
@@ -98,6 +100,8 @@ type Worker struct {
 type pathEnd struct{ why string }
 
 func (w *Worker) endPath(why string) { panic(pathEnd{why}) }
+
+var gDeadline time.Time
 
 // ---- scheduler --------------------------------------------------------------------------
 
@@ -181,6 +185,16 @@ func (e *Engine) runJobs(jobs []*Job, nworkers int) {
 					return
 				}
 				w.job = it.job
+				w.sol.timeout = time.Duration(gCfg.QueryTimeoutS) * time.Second
+				if it.job.Opts.QueryTimeoutS > 0 {
+					w.sol.timeout = time.Duration(it.job.Opts.QueryTimeoutS) * time.Second
+				}
+				if !gDeadline.IsZero() && time.Now().After(gDeadline) {
+					// exploration budget used up: what is left is not explored, and the job says so
+					it.job.inconclusive("exploration time budget exhausted with paths left unexplored")
+					sch.done()
+					continue
+				}
 				w.runPath(it.st)
 				sch.done()
 			}
